@@ -128,6 +128,14 @@ Val(t, j) ==
     [] t.k = "darray" -> [q \in 1..Pick(<<0, 1, 2, 3, 9>>, j) |-> Val(t.e, j + q)]
     [] t.k = "tuple" -> [q \in 1..Len(t.es) |-> Val(t.es[q], j + 2 * q)]
 
+\* long strings (length prefixes around one byte): sample j of a string has one of these lengths
+LongLens == <<254, 255, 256, 300, 510>>
+RECURSIVE ValLong(_, _)
+ValLong(t, j) ==
+  CASE t.k = "string" -> [q \in 1..Pick(LongLens, j) |-> 97 + ((q + j) % 26)]
+    [] t.k = "tuple" -> [q \in 1..Len(t.es) |-> ValLong(t.es[q], j + q)]
+    [] OTHER -> Val(t, j)
+
 \* ---- type universes ----------------------------------------------------------------------
 BaseTypes == {TBool, TByte, TU(8), TU(16), TU(32), TU(64), TAddr, TStr}
 SmallBase == {TBool, TU(8), TU(64), TStr, TAddr}
@@ -136,8 +144,12 @@ Arrays(S, ns) == {TSA(e, n) : e \in S, n \in ns} \cup {TDA(e) : e \in S}
 BoolRuns == {TTup([j \in 1..m |-> TBool]) : m \in {7, 8, 9, 16, 17}}
             \cup {TTup(<<TU(8)>> \o [j \in 1..m |-> TBool] \o <<TStr>>) : m \in {1, 8, 9}}
             \cup {TTup(<<TBool, TBool, TU(16), TBool, TStr, TBool, TBool, TBool>>)}
+            \* bool runs next to SEVERAL dynamic elements (head positions and element positions drift apart)
+            \cup {TTup(<<TStr, TBool, TBool, TBool, TStr, TStr>>), TTup(<<TBool, TBool, TStr, TStr>>),
+                  TTup(<<TBool, TBool, TStr, TU(8), TBool, TBool, TDA(TU(16)), TStr>>)}
 Level1 == BaseTypes \cup Arrays(BaseTypes, {1, 2, 3, 8, 9}) \cup Tuples(SmallBase, 3) \cup BoolRuns
 Inner == {TTup(<<TU(8), TStr>>), TTup(<<TBool, TBool>>), TSA(TU(16), 2), TDA(TStr), TSA(TBool, 9), TDA(TBool), TTup(<<TStr, TStr>>), TTup(<<TU(64)>>)}
+Strings == {TStr, TTup(<<TU(8), TStr>>), TTup(<<TStr, TBool, TStr>>)}
 Level2 == Arrays(Inner, {1, 2, 3}) \cup Tuples(Inner \cup {TU(8), TStr, TBool}, 2)
           \cup {TTup(<<a, TU(8), b>>) : a \in Inner, b \in {TDA(TStr), TSA(TBool, 9)}}
 =============================================================================
